@@ -12,7 +12,7 @@
    C13's moment functional ([c15_expect_poly_is_c13_normal_expect]). *)
 From Coq Require Import Reals Arith List.
 From GPV Require Import Base.LinAlg Base.Exec Base.Expr Models.C02_mll Proofs.C02_mll
-  Models.C15_elbo Proofs.C15_elbo Proofs.C15_real Proofs.C15_gap.
+  Models.C15_elbo Proofs.C15_elbo Proofs.C15_real Proofs.C15_gap Proofs.C15_multi.
 Import ListNotations.
 
 (* the objective as coded (/num_batch, /(num_data/beta), priors /num_data, added losses as they
@@ -397,3 +397,49 @@ Example ex_c15_kl_nonneg_pd_hypotheses :
   @symmetric RF 2 exPD /\ @PD RF ROrd 2 exPD /\ @is_inverse RF 2 exPD exPD_inv.
 Proof. exact ex_kl2_model_pd_hyps. Qed.
 Print Assumptions ex_c15_kl_nonneg_pd_hypotheses.
+
+(* ---- multi-output objectives (IndependentMultitask / LMC variational strategy + multitask Gaussian likelihood;
+   targets B x T).  The minibatch size of the objective is the number of POINTS B. ------------------------------ *)
+
+(* the mean of the objective over ANY partition of P*B points into P consecutive minibatches of B points is the
+   full-batch objective -- for every number of tasks T, declared num_data, beta, prior and added terms *)
+Theorem c15_multioutput_partition :
+  forall (K : Fld) (P B T : nat) (e : nat -> nat -> car) (kl beta nd lp added : car),
+    C02_mll.of_nat P <> f0 -> C02_mll.of_nat B <> f0 ->
+    fdiv (sum P (fun p => mt_elbo_value B T (fun i t => e (p * B + i)%nat t) kl beta nd lp added)) (C02_mll.of_nat P)
+    = mt_elbo_value (P * B) T e kl beta nd lp added.
+Proof. intros K. exact (@mt_partition K). Qed.
+Print Assumptions c15_multioutput_partition.
+
+(* ... and it is an unbiased estimate under uniformly drawn minibatches of any size *)
+Theorem c15_multioutput_minibatch_unbiased :
+  forall (K : Fld) (N B T : nat) (e : nat -> nat -> car) (kl beta nd lp added : car),
+    C02_mll.of_nat N <> f0 -> C02_mll.of_nat (S B) <> f0 ->
+    avg_tuples N (S B) (fun t => elbo_value (lsum t (mt_point_ell T e)) (C02_mll.of_nat (S B)) kl beta nd lp added)
+    = mt_elbo_value N T e kl beta nd lp added.
+Proof. intros K. exact (@mt_minibatch_unbiased K). Qed.
+Print Assumptions c15_multioutput_minibatch_unbiased.
+
+(* taking the minibatch size from the LAST dimension of the targets (the number of tasks) is off by
+   (sum of the likelihood terms) * (1/T - 1/B) ... *)
+Theorem c15_multioutput_by_tasks_gap :
+  forall (K : Fld) (B T : nat) (e : nat -> nat -> car) (kl beta nd lp added : car),
+    C02_mll.of_nat B <> f0 -> C02_mll.of_nat T <> f0 ->
+    fsub (mt_elbo_value_by_tasks B T e kl beta nd lp added) (mt_elbo_value B T e kl beta nd lp added)
+    = fmul (sum B (mt_point_ell T e)) (fsub (fdiv f1 (C02_mll.of_nat T)) (fdiv f1 (C02_mll.of_nat B))).
+Proof. intros K. exact (@mt_by_tasks_gap K). Qed.
+Print Assumptions c15_multioutput_by_tasks_gap.
+
+(* ... hence not the definition *)
+Theorem c15_multioutput_by_tasks_refuted :
+  exists (B T : nat) (e : nat -> nat -> Qcanon.Qc) (kl beta nd lp added : Qcanon.Qc),
+    @mt_elbo_value_by_tasks QcF B T e kl beta nd lp added <> @mt_elbo_value QcF B T e kl beta nd lp added.
+Proof. exact mt_by_tasks_refuted. Qed.
+Print Assumptions c15_multioutput_by_tasks_refuted.
+
+(* independent tasks are the LMC construction with the identity mixing matrix and no jitter *)
+Theorem c15_independent_is_lmc_identity :
+  forall (K : Fld) (L : nat) (mu v : nat -> nat -> car) (i t : nat), (t < L)%nat ->
+    lmc_mean L mI mu i t = mu t i /\ lmc_var L mI f0 v i t = v t i.
+Proof. intros K L mu v i t Ht. split; [exact (@lmc_identity_mean K L mu i t Ht) | exact (@lmc_identity_var K L v i t Ht)]. Qed.
+Print Assumptions c15_independent_is_lmc_identity.
